@@ -584,7 +584,8 @@ def newsvendor_discrete(holding_cost, stockout_cost, demand_distrib=None,
 				if i >= len(demand_pmf):
 					break
 			# Set base-stock level.
-			base_stock_level = demand_values[i-1]
+			# (If alpha = 0, the loop does not execute; use the smallest demand value.)
+			base_stock_level = demand_values[max(i-1, 0)]
 	else:
 		# Check for integer base_stock_level
 		if not is_integer(base_stock_level): raise ValueError("base_stock_level must be an integer")
